@@ -24,6 +24,7 @@ from renormalizer.tn import TTNS, TTNO, BasisTree, TreeNodeBasis
 from renormalizer.tn.tree import from_mps
 
 TOL = 1e-9
+HISTORY = {"specs": 0, "with_aux": 0, "with_sub": 0}
 ZERO_SKIPS = [0]      # canonicalise/compress checks skipped because the operator annihilates the random state
 
 # ---- witness contract of the factorisations used by canonicalise / compress (hypothesis of ttns_push_preserves,
@@ -271,6 +272,178 @@ def compare_dicts(got, ref, prefix, fails, only_keys_of_ref=False, tol=TOL):
     return n
 
 
+
+# ---- call-history independence: operator objects reused across states that live on different basis trees
+def larger_tree(bt, rs, max_total):
+    """same topology, extra (auxiliary, "Q") basis sets next to some of the physical ones -- what
+    BasisTree.add_auxiliary_space does for all of them; here for as many as the dense reference can afford"""
+    dim = int(np.prod([b.nbas for b in bt.basis_list]))
+    if dim ** 2 <= max_total:
+        return bt.add_auxiliary_space()
+    new_nodes = []
+    added = 0
+    for node in bt.node_list:
+        bs = []
+        for b in node.basis_sets:
+            bs.append(b)
+            if not isinstance(b, BasisDummy) and dim * b.nbas <= max_total and (added == 0 or rs.rand() < 0.5):
+                q = b.copy(("Q", b.dofs))
+                q.sigmaqn = np.zeros_like(b.sigmaqn)
+                bs.append(q)
+                dim *= b.nbas
+                added += 1
+        new_nodes.append(TreeNodeBasis(bs))
+    if not added:
+        return None
+    from renormalizer.tn.node import copy_connection
+    copy_connection(bt.node_list, new_nodes)
+    return BasisTree(new_nodes[0])
+
+
+def site_rdm_refs(st):
+    """dense one-site RDMs of every node of st (ket axes then bra axes, dummy DoFs as size-1 axes)"""
+    order = L.real_order(st.basis)
+    names = [b.dofs[0] for b in order]
+    psi = L.dense(st)
+    res = []
+    for nd in st.basis.node_list:
+        ds = [b.dofs[0] for b in nd.basis_sets]
+        real = [d for d in ds if d in names]
+        rho = rdm_dense(psi, names, real)
+        shp = [rho.shape[real.index(d)] if d in names else 1 for d in ds]
+        res.append(rho.reshape(shp + shp))
+    return res
+
+
+def history_check(spec, bt, nodes, ac, terms, pbt, pterms):
+    """every operator object is used with several states on different basis trees, in both orders and repeatedly;
+    every result is compared with the dense reference and with the result of the same call made earlier"""
+    from renormalizer.utils import CompressConfig
+    rs = np.random.RandomState((spec["seed"] + 11) % (2 ** 32))
+    bad = []
+    n = 0
+    states = {"own": ac}
+    big = larger_tree(bt, rs, 1200)
+    if big is not None:
+        np.random.seed((spec["seed"] + 7) % (2 ** 32))
+        try:
+            s = TTNS.random(big, L.qntot_of(spec), max(2, spec["m"]))
+            if np.linalg.norm(L.dense(s).ravel()) > 1e-8:
+                states["aux"] = s.add(s.scale(0.5j)) if rs.rand() < 0.5 else s
+        except Exception:
+            pass
+    if pbt is not None and pterms:
+        for q in ([L.qntot_of(spec)] if not spec.get("qn") else [L.qntot_of(spec), L.qntot_of(spec) * 0, L.qntot_of(spec) * 0 + 1]):
+            np.random.seed((spec["seed"] + 13) % (2 ** 32))
+            try:
+                s = TTNS.random(pbt, q, max(2, spec["m"]))
+                if np.linalg.norm(L.dense(s).ravel()) > 1e-8:
+                    states["sub"] = s
+                    break
+            except Exception:
+                continue
+    for st in states.values():
+        st.compress_config = CompressConfig(threshold=1e-13)
+    dense_of = {k: L.dense(v) for k, v in states.items()}
+    order_of = {k: L.real_order(v.basis) for k, v in states.items()}
+    seen = {}
+
+    def use(opname, op, tms, sname, tag):
+        nonlocal n
+        st = states[sname]
+        v = dense_of[sname].ravel()
+        Od = dense_operator(order_of[sname], tms) if tms is not None else np.eye(v.size)
+        ref_e = complex(v.conj() @ (Od @ v))
+        ref_v = Od @ v
+        res = {}
+        try:
+            res["expectation"] = complex(st.expectation(op))
+            if tms is not None:
+                res["apply"] = L.dense(op.apply(st)).ravel()
+                res["matmul"] = L.dense(op @ st).ravel()
+                if np.linalg.norm(ref_v) > 1e-8 and len(st.node_list) > 1:
+                    res["contract"] = L.dense(op.contract(st)).ravel()
+        except Exception:
+            bad.append("%s: %s on state '%s' raised %s" % (tag, opname, sname, traceback.format_exc(limit=3)[-300:]))
+            return
+        for k, val in res.items():
+            n += 1
+            ref = ref_e if k == "expectation" else ref_v
+            ok, err = close(val, ref, 1e-7 if k == "contract" else TOL)
+            if not ok:
+                bad.append("%s: %s.%s on state '%s' differs from the dense reference (err %s)" % (tag, opname, k, sname, err))
+            key = (opname, sname, k)
+            if key in seen:
+                ok2, err2 = close(val, seen[key], 1e-7 if k == "contract" else 1e-10)
+                if not ok2:
+                    bad.append("%s: %s.%s on state '%s' depends on the call history (err %s vs the first call)" % (tag, opname, k, sname, err2))
+            else:
+                seen[key] = val
+
+    names = list(states)
+    for variant, seq in (("A", names + names), ("B", names[::-1] + names[::-1])):
+        ops = []
+        if terms:
+            ops.append(("ttno" + variant, TTNO(bt, L.build_terms(spec, terms)), terms, [x for x in seq if x != "sub"]))
+        if pbt is not None and pterms:
+            ops.append(("partial" + variant, TTNO(pbt, L.build_terms(spec, pterms)), pterms, seq))
+        ops.append(("dummy" + variant, TTNO.dummy(bt), None, [x for x in seq if x != "sub"]))
+        for opname, op, tms, sq in ops:
+            for sname in sq:
+                use(opname, op, tms, sname, "order " + variant)
+    # RDM routines of states on different trees interleaved, each twice
+    for sname in names + names[::-1]:
+        st = states[sname]
+        try:
+            r1 = st.calc_1site_rdm()
+            refs = site_rdm_refs(st)
+            for k, ref in enumerate(refs):
+                n += 1
+                ok, err = close(np.asarray(r1[k]), ref)
+                if not ok:
+                    bad.append("calc_1site_rdm of node %d of state '%s' (interleaved with other trees) err %s" % (k, sname, err))
+        except Exception:
+            bad.append("calc_1site_rdm on state '%s' raised %s" % (sname, traceback.format_exc(limit=3)[-300:]))
+    return n, bad, sorted(states)
+
+
+def inplace_rdm_check(st):
+    """RDMs before and after in-place rescaling of the state (normalize, scale(inplace=True))"""
+    bad = []
+    n = 0
+    c = st.copy()
+    steps = [("as built", lambda: None), ("after normalize('mps_only')", lambda: c.normalize("mps_only")),
+             ("after scale(0.5, inplace=True)", lambda: c.scale(0.5, inplace=True)),
+             ("after normalize('mps_norm_to_coeff')", lambda: c.normalize("mps_norm_to_coeff"))]
+    nn = len(c.node_list)
+    for tag, f in steps:
+        f()
+        refs = site_rdm_refs(c)
+        scale = abs(c.coeff) ** 2 if np.ndim(c.coeff) == 0 else 1.0     # RDM routines see the tensors only
+        r1 = c.calc_1site_rdm()
+        for k, ref in enumerate(refs):
+            n += 1
+            ok, err = close(np.asarray(r1[k]) * scale, ref)
+            if not ok:
+                bad.append("calc_1site_rdm node %d %s: err %s" % (k, tag, err))
+        d1 = c.calc_1dof_rdm()
+        tr = {k: complex(np.trace(np.asarray(v))) for k, v in d1.items()}
+        nrm2 = float(np.linalg.norm(L.dense(c).ravel()) ** 2)
+        for k, v in tr.items():
+            n += 1
+            if abs(v * scale - nrm2) > 1e-9 * max(1.0, nrm2):
+                bad.append("trace of calc_1dof_rdm(%s) %s is %s, <psi|psi> = %s" % (k, tag, v * scale, nrm2))
+        if nn >= 2:
+            pair = (0, nn - 1)
+            r2 = np.asarray(c.calc_2site_rdm(pair)[pair])
+            k2 = r2.ndim // 2
+            t2 = complex(np.trace(r2.reshape(int(np.prod(r2.shape[:k2])), -1)))
+            n += 1
+            if abs(t2 * scale - nrm2) > 1e-9 * max(1.0, nrm2):
+                bad.append("trace of calc_2site_rdm%s %s is %s, <psi|psi> = %s" % (pair, tag, t2 * scale, nrm2))
+    return n, bad
+
+
 def run_spec(spec):
     """returns (n_checks, failures[(name, msg)], skipped_reason or None)"""
     fails = []
@@ -361,16 +534,18 @@ def run_spec(spec):
     # operator on a sub-tree's DoFs (partial operator): same topology, every node keeps a subset of its DoFs
     keep = spec.get("keep")
     pterms = spec.get("pterms") or []
+    pbt = None
     if keep is not None and pterms:
+        pn = {}
+        for i, descs in enumerate(spec["nodes"]):
+            bs = [nodes[i].basis_sets[j] for j in keep[i]] if descs else []
+            pn[i] = TreeNodeBasis(bs) if bs else TreeNodeBasis([L.dummy_basis(("pdummy", i), spec.get("qn"))])
+        for i, ch in enumerate(spec["order"]):
+            for c in ch:
+                pn[i].add_child(pn[c])
+        pbt = BasisTree(pn[0])
+
         def c_partial():
-            pn = {}
-            for i, descs in enumerate(spec["nodes"]):
-                bs = [nodes[i].basis_sets[j] for j in keep[i]] if descs else []
-                pn[i] = TreeNodeBasis(bs) if bs else TreeNodeBasis([L.dummy_basis(("pdummy", i), spec.get("qn"))])
-            for i, ch in enumerate(spec["order"]):
-                for c in ch:
-                    pn[i].add_child(pn[c])
-            pbt = BasisTree(pn[0])
             pt = TTNO(pbt, L.build_terms(spec, pterms))
             Op_ = dense_operator(order, pterms)
             r1 = close(L.dense(pt.apply(a)).ravel(), Op_ @ da.ravel())
@@ -379,6 +554,28 @@ def run_spec(spec):
             r2 = close(complex(ac.expectation(pt)), complex(dac.ravel().conj() @ (Op_ @ dac.ravel())))
             return r2
         chk("partial-operator", c_partial)
+
+    # operator objects reused across states on different basis trees, in both orders; results must not depend on history
+    def c_history():
+        nonlocal nchk
+        n, bad, used = history_check(spec, bt, nodes, ac, terms, pbt, pterms)
+        nchk += n
+        HISTORY["specs"] += 1
+        HISTORY["with_aux"] += 1 if "aux" in used else 0
+        HISTORY["with_sub"] += 1 if "sub" in used else 0
+        if bad:
+            return False, "; ".join(bad[:3])
+        return None
+    chk("operator-reuse", c_history)
+
+    def c_inplace():
+        nonlocal nchk
+        n, bad = inplace_rdm_check(ac)
+        nchk += n
+        if bad:
+            return False, "; ".join(bad[:3])
+        return None
+    chk("rdm-after-inplace", c_inplace)
     # canonicalise / lossless compress
     def c_cano():
         c = a.add(b)
@@ -568,7 +765,7 @@ def main():
         for k, (name, msg) in enumerate(fails):
             failures.append({"check": name, "spec": ms, "err": msg, "rank": k, "first": fails[0][0]})
     L.emit({"checked": checked + CONTRACT["n"], "specs_run": nspec, "skipped": skipped, "failures": failures,
-            "qn2_specs_run": nqn2, "zero_result_skips": ZERO_SKIPS[0], "contract_checks": CONTRACT["n"], "contract_worst": CONTRACT["worst"]}, payload.get("out"))
+            "qn2_specs_run": nqn2, "zero_result_skips": ZERO_SKIPS[0], "history": HISTORY, "contract_checks": CONTRACT["n"], "contract_worst": CONTRACT["worst"]}, payload.get("out"))
 
 
 if __name__ == "__main__":
